@@ -90,7 +90,14 @@ def gen_model(seed: int) -> Dict[str, Any]:
             continue
         merges.append([m, s])
     delete = rs.randrange(100) if rs.chance(0.25) else None
-    return {"blocks": blocks, "patches": patches, "merges": merges, "delete": delete}
+    model = {"blocks": blocks, "patches": patches, "merges": merges, "delete": delete}
+    fr = Stream(seed, "flips", "C05")
+    if fr.chance(0.25):
+        model["inverts"] = [b["name"] for b in blocks if fr.chance(0.5)] or [blocks[0]["name"]]
+        if fr.chance(0.3):
+            u = _unit(fr)
+            model["mirror"] = {"normal": [round(x, 6) for x in u], "origin": [round(fr.uniform(-1, 1), 3) for _ in range(3)]}
+    return model
 
 
 def make_program(model: Dict[str, Any], cfg_seed: int, identity: bool = False) -> Dict[str, Any]:
@@ -115,13 +122,20 @@ def make_program(model: Dict[str, Any], cfg_seed: int, identity: bool = False) -
         dops = [{"op": "delete", "target": names[model["delete"] % len(names)]}]
     aops = aops + dops
     late = (not identity) and cs.chance(0.3)
+    # operations turned over (top and bottom face swapped) or mirrored (which turns them over too):
+    # part of the model, so every configuration does it; when, relative to a first assembly, varies
+    flips = [{"op": "invert", "target": n} for n in model.get("inverts", [])]
+    if model.get("mirror"):
+        flips += [dict({"op": "mirror", "target": n}, **model["mirror"]) for n in names]
     if late and mops:
         # the mesh was assembled once before some of the pairs were declared; it is cleared and
         # assembled again (connectivity must be that of the model as it stands at the last assembly)
         cut = cs.randrange(len(mops))
-        ops += mops[:cut] + aops + [{"op": "assemble"}] + mops[cut:] + [{"op": "clear"}]
+        ops += mops[:cut] + aops + [{"op": "assemble"}] + mops[cut:] + flips + [{"op": "clear"}]
+    elif flips and cs.chance(0.6):
+        ops += ((mops + aops) if merge_first else (aops + mops)) + [{"op": "assemble"}] + flips + [{"op": "clear"}]
     else:
-        ops += (mops + aops) if merge_first else (aops + mops)
+        ops += flips + ((mops + aops) if merge_first else (aops + mops))
     ops.append({"op": "assemble"})
     ops.append({"op": "write", "path": DICT_PATH})
     return {"ops": ops}
@@ -132,13 +146,34 @@ def make_program(model: Dict[str, Any], cfg_seed: int, identity: bool = False) -
 SIDE_OF_CORNER: Dict[int, List[str]] = {i: [s for s in hexref.SIDES if i in hexref.SIDE_CORNERS[s]] for i in range(8)}
 
 
-def reference_partition(program: Dict[str, Any]) -> Tuple[List[str], List[List[Any]]]:
-    """per added block (add order), per corner: the key (cluster id, slave patches at that corner)"""
+def _reflect(p, normal, origin):
+    nn = math.sqrt(sum(x * x for x in normal))
+    u = [x / nn for x in normal]
+    o = origin or [0.0, 0.0, 0.0]
+    d = sum((p[k] - o[k]) * u[k] for k in range(3))
+    return [p[k] - 2 * d * u[k] for k in range(3)]
+
+
+def effective_model(program: Dict[str, Any]):
+    """the model as it stands at the end of the script: corner points per block (after being turned
+    over / mirrored), patch name per (block, side), merges, surviving blocks in add order"""
     hexes, patches, merges, added = {}, {}, [], []
     deleted = set()
     for op in program["ops"]:
         if op["op"] == "hex":
-            hexes[op["name"]] = op
+            hexes[op["name"]] = {"name": op["name"], "corners": [list(c) for c in op["corners"]]}
+        elif op["op"] in ("invert", "mirror"):
+            h = hexes[op["target"]]
+            if op["op"] == "mirror":
+                h["corners"] = [_reflect(c, op["normal"], op.get("origin")) for c in h["corners"]]
+            # turned over: the old top face is the new bottom face, and the patches travel with the faces
+            h["corners"] = h["corners"][4:] + h["corners"][:4]
+            pp = patches.setdefault(op["target"], {})
+            t, b = pp.pop("top", None), pp.pop("bottom", None)
+            if t is not None:
+                pp["bottom"] = t
+            if b is not None:
+                pp["top"] = b
         elif op["op"] == "patch":
             sides = op["side"] if isinstance(op["side"], list) else [op["side"]]
             for s in sides:
@@ -150,6 +185,12 @@ def reference_partition(program: Dict[str, Any]) -> Tuple[List[str], List[List[A
         elif op["op"] == "delete":
             deleted.add(op["target"])
     added = [n for n in added if n not in deleted]
+    return hexes, patches, merges, added
+
+
+def reference_partition(program: Dict[str, Any]) -> Tuple[List[str], List[List[Any]]]:
+    """per added block (add order), per corner: the key (cluster id, slave patches at that corner)"""
+    hexes, patches, merges, added = effective_model(program)
     slaves = {s for (_, s) in merges}
     allpos = []
     for n in added:
@@ -267,7 +308,7 @@ def oracle(program: Dict[str, Any], run: Dict[str, Any]) -> Tuple[List[Dict[str,
     if sorted(parsed.merge_pairs) != declared:
         bad("merge-pairs-lost", f"mergePatchPairs written {parsed.merge_pairs}, declared {declared}")
     # every corner's vertex is at the corner's point
-    hexes = {op["name"]: op for op in program["ops"] if op["op"] == "hex"}
+    hexes = effective_model(program)[0]
     for b, nme in enumerate(added):
         for c in range(8):
             i = got[b][c]
